@@ -9,6 +9,10 @@ import (
 )
 
 func schemaComments(schema *openapi3.Schema) []string {
+	if schema == nil {
+		return nil
+	}
+
 	lines := strings.Split(schema.Description, "\n")
 	filtered := make([]string, 0, len(lines))
 
